@@ -218,3 +218,14 @@ func TestC07ApiConcurrent(t *testing.T) {
 		Gen:  genC07ApiConcurrent, Exec: execC07ApiConcurrent,
 	})
 }
+
+// C13ApiReload: the same runs judged for C13 ("GET /api/v2/alerts returns exactly the alerts whose end time has not
+// passed, with … the receivers routing selects"): while the configuration is being reloaded every request is answered,
+// lists every stored alert once, and shows it with the receivers of a configuration that was in force.
+func TestC13ApiReload(t *testing.T) {
+	pbt.Run(t, pbt.Spec[c07acScenario]{
+		Property: "C13", Name: "C13ApiReload",
+		Rule: "the runs of C07ApiConcurrent (a real provider with 20 / 200 / 1500 alerts behind the real API, api.Update installing three routing trees in turn while 1-4 goroutines request GET /api/v2/alerts on the real scheduler) judged for C13: every request is answered with status 200, lists every stored alert exactly once, and each with the receivers of one of the installed trees (the updater's own request: of the tree just installed). A request or an Update that never returns because of a lock nobody releases is a violation (kind hang). Non-trivial: at least one concurrent read happened.",
+		Gen:  genC07ApiConcurrent, Exec: execC07ApiConcurrent,
+	})
+}
